@@ -102,6 +102,20 @@ PLAN["C07"] = {"kernels": [r"combinations"], "kinds": ["S", "E", "F"], "extra": 
                "trusted": KERNEL_TRUST + ["enumeration order of awkward_ListArray_combinations / awkward_RegularArray_combinations_64 (recursive helper over T**) is outside the translator: BOUNDED stand-in against itertools only; ak.cartesian is Python glue, not covered"]}
 
 
+def _gcall_for(pid):
+    def eng(pid_, tier, seed, known):
+        from . import gcall
+        return gcall.engine(pid_, tier, seed, known, kernel_patterns=PLAN[pid]["kernels"])
+    eng.__name__ = "gcall_%s" % pid
+    return eng
+
+
+for _pid in ("C01", "C02", "C03", "C04", "C05", "C07", "C08", "C09", "C11"):
+    PLAN[_pid].setdefault("extra", [])
+    PLAN[_pid]["extra"] = list(PLAN[_pid]["extra"]) + [_gcall_for(_pid)]
+    PLAN[_pid]["trusted"] = list(PLAN[_pid].get("trusted", [])) + [G_TRUST[-1]]
+
+
 def symbols_for(P, KI):
     pats = [re.compile(p) for p in P.get("kernels", [])]
     out = []
